@@ -11,7 +11,8 @@ Local Open Scope N_scope.
     them in the order of the schedule (true = requester). *)
 Record rcase := mk_rcase {
   rc_kind : N;            (* 0-3 kill the owner: pid / name / alias / event target;
-                             4 node.UnregisterName, 5 process.UnregisterName, 6 DeleteAlias, 7 UnregisterEvent *)
+                             4 node.UnregisterName, 5 process.UnregisterName, 6 DeleteAlias, 7 UnregisterEvent,
+                             8 SpawnRegister whose ProcessInit fails (target: the name) *)
   rc_mon : bool;
   rc_sched : list bool;
   rc_res : res;           (* what Link* / Monitor* returned *)
